@@ -200,8 +200,8 @@ def gen_guard_cases(ctx: Ctx, n_random: int, n_obsrun: int = 6):
                 seen.add(key)
                 if path == "sweep" and x["t"] == "none":
                     continue  # Processor.set has no notion of None (TypeError before any setter)
-                if path == "yaml" and small and x["t"] in ("nan", "inf"):
-                    continue  # refused later by the frame allocation, not by the guard that is modelled here
+                if path == "yaml" and small and x["t"] == "inf":
+                    continue  # accepted by the guard (an extended real > 0), refused later by the frame allocation
                 cases.append(dict(k="guard", cls=cls, field=field, path=path, det=r.choice(dets), x=x))
             for x in np_values(r, lo, hi, seqlen, small):
                 key = json.dumps(x, sort_keys=True)
@@ -1293,6 +1293,7 @@ def run(ctx: Ctx):
         "guard may be type-strict about an in-range one (Environment.wavelength setter)",
         "integrality of row / col / adc_bit_resolution is not part of the documented range that is checked",
         "None is 'not specified': the constructor must take it iff the field is optional; no claim for setters",
+        "row / col = +inf is not driven through YAML (the guard takes it as a number > 0, the frame allocation refuses it)",
         "documents use dyadic numbers so that every float operation of the loader is exact",
     ]
     gen = {}
